@@ -3,7 +3,9 @@
 
    Statements are about Model/PkgAuth.v: expandPackage with verifyExpanded (fix
    6d335fb), ExpandApk's per-file check, cachedPackage / cachePackage, the
-   process-wide memo of expanded packages, and the lazy and streaming installs.
+   process-wide memo of expanded packages keyed by URL + "@" + checksum string
+   (fix 9459281), and the lazy and streaming installs. [b64] is
+   base64.StdEncoding.DecodeString, universally quantified like the hashes.
    SHA-1 and SHA-256 are universally quantified functions: the chain theorems
    speak about equality of digests; the consequence for bytes
    (c05_data_authenticated) takes collision resistance as explicit hypotheses.
@@ -16,53 +18,51 @@ Open Scope string_scope. Open Scope list_scope.
 
 (* Without a cache the chain holds for every handle, every served package and
    every state: no hypothesis at all. *)
-Theorem c05_chain_no_cache : forall sha1 sha256 m h served x k' m',
-  expand_package sha1 sha256 m None h served = (XOk x, k', m') -> Chain sha1 sha256 h x.
+Theorem c05_chain_no_cache : forall sha1 sha256 b64 m h served x k' m',
+  expand_package sha1 sha256 b64 m None h served = (XOk x, k', m') -> Chain sha1 sha256 b64 h x.
 Proof.
-  intros sha1 sha256 m h served x k' m' H. unfold expand_package in H.
-  destruct (expand_uncached sha1 sha256 None h served) as [r k1] eqn:E. inversion H; subst.
-  eapply (expand_uncached_chain sha1 sha256 None); eauto; exact I.
+  intros sha1 sha256 b64 m h served x k' m' H. unfold expand_package in H.
+  destruct (expand_uncached sha1 sha256 b64 None h served) as [r k1] eqn:E. inversion H; subst.
+  eapply (expand_uncached_chain sha1 sha256 b64 None); eauto; exact I.
 Qed.
 Print Assumptions c05_chain_no_cache.
 
-(* FULL statement: "every successful expansion satisfies the chain, in every
-   state a process can reach". It is FALSE of the faithful model and of the code
-   (finding C05-F1): with a cache configured, expansions are memoised per process
-   by URL alone, so after one request for a URL a second request for the same URL
-   that records another checksum is answered with the first expansion. Witness:
-   two requests in one process, same URL, checksums [1] then [2], origin serving
-   the matching package each time; the second install gets the first package,
-   although a fresh expansion of the second request satisfies the chain. *)
-Theorem c05_chain_refuted :
-  exists h1 h2 a1 a2 r1 k1 m1 x k2 m2,
-    h_url h1 = h_url h2 /\
-    expand_package idf idf [] (Some empty_cache) h1 (Some a1) = (r1, k1, m1) /\
-    expand_package idf idf m1 k1 h2 (Some a2) = (XOk x, k2, m2) /\
-    Chain idf idf h2 (match expand_uncached idf idf (Some empty_cache) h2 (Some a2) with (XOk y, _) => y | _ => x end) /\
-    ~ Chain idf idf h2 x.
-Proof. exact memo_by_url_refutes_chain. Qed.
-Print Assumptions c05_chain_refuted.
-
-(* PARTIAL (what is missing: requests for one URL that record different
-   checksums within one process). If within the process every URL keeps one
-   recorded checksum ([su]), the cache satisfies the population invariant and an
-   existing cache destination holds the same member (content addressing), then
-   every successful expansion — fetched, served from the warm cache, or answered
-   from the memo — satisfies the chain, and the invariants are re-established,
-   so the statement extends to every sequence of requests from the initial state
-   (c05_initial_state). *)
-Theorem c05_chain_partial : forall sha1 sha256 su m k h served r k' m',
-  memo_inv sha1 sha256 su m -> opt_cache_ok sha1 sha256 k -> opt_dst_same sha1 sha256 k served ->
-  h_sum h = su (h_url h) ->
-  expand_package sha1 sha256 m k h served = (r, k', m') ->
-  (forall x, r = XOk x -> Chain sha1 sha256 h x) /\ opt_cache_ok sha1 sha256 k' /\ memo_inv sha1 sha256 su m'.
+(* With a cache, for every request whose checksum string contains no '@' (every
+   string base64 accepts, so every checksum an index entry can carry): if the
+   process memo and the cache directory satisfy their invariants and an existing
+   cache destination holds the same member (content addressing), every
+   successful expansion — fetched, served from the warm cache, or answered from
+   the memo — satisfies the chain, and the invariants are re-established; with
+   c05_initial_state this extends to every sequence of requests of a process and
+   every sequence of processes sharing a cache directory. *)
+Theorem c05_chain : forall sha1 sha256 b64 m k h served r k' m',
+  b64_alphabet b64 -> no_at (h_chk h) = true ->
+  memo_inv sha1 sha256 b64 m -> opt_cache_ok sha1 sha256 k -> opt_dst_same sha1 sha256 k served ->
+  expand_package sha1 sha256 b64 m k h served = (r, k', m') ->
+  (forall x, r = XOk x -> Chain sha1 sha256 b64 h x) /\ opt_cache_ok sha1 sha256 k' /\ memo_inv sha1 sha256 b64 m'.
 Proof. exact expand_package_chain. Qed.
-Print Assumptions c05_chain_partial.
+Print Assumptions c05_chain.
 
-Theorem c05_initial_state : forall sha1 sha256 su,
-  memo_inv sha1 sha256 su [] /\ cache_ok sha1 sha256 empty_cache.
+Theorem c05_initial_state : forall sha1 sha256 b64,
+  memo_inv sha1 sha256 b64 [] /\ cache_ok sha1 sha256 empty_cache.
 Proof. intros. split; [intros u r x H; discriminate H | apply empty_cache_ok]. Qed.
 Print Assumptions c05_initial_state.
+
+(* The side condition on the checksum string cannot be dropped (finding C05-F2):
+   the memo key joins URL and checksum with '@', so the requests
+   (URL "a@b", checksum "1") and (URL "a", checksum "b@1") share a key. After the
+   first succeeded, the second — whose checksum is not even base64 and which a
+   fresh expansion refuses — is answered with the first package. c05_chain is
+   therefore the `_partial` of the unrestricted statement; the missing part is
+   exactly this key collision. *)
+Theorem c05_chain_unrestricted_refuted :
+  exists r1 k1 m1 x k2 m2,
+    expand_package idf idf wit_b64 [] (Some empty_cache) wit_h1 (Some wit_apk) = (r1, k1, m1) /\
+    expand_package idf idf wit_b64 m1 k1 wit_h2 None = (XOk x, k2, m2) /\
+    fst (expand_uncached idf idf wit_b64 k1 wit_h2 (Some wit_apk)) = XErr EVerify /\
+    ~ Chain idf idf wit_b64 wit_h2 x.
+Proof. exact memo_key_ambiguity_refutes_chain. Qed.
+Print Assumptions c05_chain_unrestricted_refuted.
 
 (* what gets installed is the regular files of the expanded data section, byte
    for byte, on both install paths *)
@@ -75,23 +75,23 @@ Print Assumptions c05_installed_bytes.
    a control section says is determined by its bytes": if the handle records the
    SHA-1 of genuine control bytes that record a data hash, the installed control
    and data bytes are the genuine ones *)
-Theorem c05_data_authenticated : forall sha1 sha256 h x g,
+Theorem c05_data_authenticated : forall sha1 sha256 b64 h x g,
   (forall a b, sha1 a = sha1 b -> a = b) ->
   (forall a b, hex (sha256 a) = hex (sha256 b) -> a = b) ->
   (forall c c', c_raw c = c_raw c' -> c_datahash c = c_datahash c') ->
-  h_sum h = Some (sha1 (c_raw (a_ctl g))) ->
+  h_sum b64 h = Some (sha1 (c_raw (a_ctl g))) ->
   (exists dh, In dh (c_datahash (a_ctl g)) /\ dh <> "" /\ dh = hex (sha256 (d_raw (a_dat g)))) ->
-  Chain sha1 sha256 h x ->
+  Chain sha1 sha256 b64 h x ->
   c_raw (x_ctl x) = c_raw (a_ctl g) /\ d_raw (x_dat x) = d_raw (a_dat g).
 Proof. exact chain_pins_bytes. Qed.
 Print Assumptions c05_data_authenticated.
 
 (* per-file checksums, as the code has them: a regular file whose body
    disagrees with its recorded checksum aborts the expansion of fetched bytes; *)
-Theorem c05_per_file_mismatch_aborts : forall sha1 sha256 k h a f d,
-  (match k with Some kc => cached_package kc h | None => None end) = None ->
+Theorem c05_per_file_mismatch_aborts : forall sha1 sha256 b64 k h a f d,
+  (match k with Some kc => cached_package b64 kc h | None => None end) = None ->
   In f (d_files (a_dat a)) -> f_kind f = FReg -> f_sum f = SumSome d -> d <> sha1 (f_body f) ->
-  expand_uncached sha1 sha256 k h (Some a) = (XErr ESums, k).
+  expand_uncached sha1 sha256 b64 k h (Some a) = (XErr ESums, k).
 Proof. exact expand_uncached_file_mismatch. Qed.
 Print Assumptions c05_per_file_mismatch_aborts.
 
@@ -113,10 +113,10 @@ Print Assumptions c05_missing_checksum_streaming_recomputed.
 (* the warm cache: a hit returns the members stored under the expected checksum
    and under the datahash the stored control records — found by NAME, nothing is
    re-hashed, [x_ctl_hash] is the expected checksum itself ... *)
-Theorem c05_cache_addressing : forall k h x,
-  cached_package k h = Some x ->
+Theorem c05_cache_addressing : forall b64 k h x,
+  cached_package b64 k h = Some x ->
   h_q1 h = true /\ exists sum dh,
-    h_sum h = Some sum /\ In (sum, x_ctl x) (k_ctl k) /\
+    h_sum b64 h = Some sum /\ In (sum, x_ctl x) (k_ctl k) /\
     c_datahash (x_ctl x) = [dh] /\ In (dh, x_dat x) (k_dat k) /\ x_ctl_hash x = sum.
 Proof. exact cached_package_by_name. Qed.
 Print Assumptions c05_cache_addressing.
@@ -124,21 +124,21 @@ Print Assumptions c05_cache_addressing.
 (* ... so a hit is authenticated exactly when population was: under the
    population invariant it satisfies the chain, and population (which names
    entries by the COMPUTED digests, after the checks) maintains the invariant *)
-Theorem c05_cache_hit_authentic : forall sha1 sha256 k h x,
-  cache_ok sha1 sha256 k -> cached_package k h = Some x -> Chain sha1 sha256 h x.
+Theorem c05_cache_hit_authentic : forall sha1 sha256 b64 k h x,
+  cache_ok sha1 sha256 k -> cached_package b64 k h = Some x -> Chain sha1 sha256 b64 h x.
 Proof. exact cached_package_chain. Qed.
 Print Assumptions c05_cache_hit_authentic.
 
-Theorem c05_cache_population : forall sha1 sha256 k h served r k',
+Theorem c05_cache_population : forall sha1 sha256 b64 k h served r k',
   opt_cache_ok sha1 sha256 k -> opt_dst_same sha1 sha256 k served ->
-  expand_uncached sha1 sha256 k h served = (r, k') -> opt_cache_ok sha1 sha256 k'.
+  expand_uncached sha1 sha256 b64 k h served = (r, k') -> opt_cache_ok sha1 sha256 k'.
 Proof. exact expand_uncached_keeps_cache_ok. Qed.
 Print Assumptions c05_cache_population.
 
 (* the boolean validator run on what the implementation installed decides
    exactly the readable chain *)
-Theorem c05_validator_decides : forall sha1 sha256 sfx h x,
-  chain_tags sha1 sha256 sfx h x = [] <-> Chain sha1 sha256 h x.
+Theorem c05_validator_decides : forall sha1 sha256 b64 sfx h x,
+  chain_tags sha1 sha256 b64 sfx h x = [] <-> Chain sha1 sha256 b64 h x.
 Proof. exact chain_tags_iff. Qed.
 Print Assumptions c05_validator_decides.
 
@@ -147,27 +147,34 @@ Definition ex_file (sum : recsum) : dfile := {| f_name := "etc/f"; f_kind := FRe
 Definition ex_apk (raw : N) (dh : list string) (sum : recsum) : apkfile :=
   {| a_ctl := {| c_raw := [raw]; c_desc := "d"; c_datahash := dh |};
      a_dat := {| d_raw := [9]%N; d_files := [ex_file sum] |} |}.
-Definition ex_h : handle := {| h_url := "u"; h_q1 := true; h_sum := Some [1]%N |}.
+Definition ex_h : handle := {| h_url := "u"; h_chk := "Q11" |}.
 
 (* the genuine package installs, cold and then warm (second call in a new process: empty memo) *)
 Example c05_genuine_installs :
-  exists x k m, expand_package idf idf [] (Some empty_cache) ex_h (Some (ex_apk 1 ["09"] (SumSome [7]%N))) = (XOk x, Some k, m) /\
+  exists x k m, expand_package idf idf wit_b64 [] (Some empty_cache) ex_h (Some (ex_apk 1 ["09"] (SumSome [7]%N))) = (XOk x, Some k, m) /\
     install true x = Some [("etc/f", [7]%N)] /\
-    exists x', expand_package idf idf [] (Some k) ex_h None = (XOk x', Some k, [("u", XOk x')]) /\ x_dat x' = x_dat x.
+    exists x', expand_package idf idf wit_b64 [] (Some k) ex_h None = (XOk x', Some k, [("u@Q11", XOk x')]) /\ x_dat x' = x_dat x.
 Proof. eexists _, _, _. split; [vm_compute; reflexivity|]. split; [vm_compute; reflexivity|]. eexists. split; vm_compute; reflexivity. Qed.
 
 (* each substitution is refused *)
 Example c05_substitutions_refused :
-  fst (expand_uncached idf idf None ex_h (Some (ex_apk 2 ["09"] (SumSome [7]%N)))) = XErr EVerify /\   (* other control *)
-  fst (expand_uncached idf idf None ex_h (Some (ex_apk 1 ["0a"] (SumSome [7]%N)))) = XErr EVerify /\   (* data hash disagrees *)
-  fst (expand_uncached idf idf None ex_h (Some (ex_apk 1 ["09"] (SumSome [8]%N)))) = XErr ESums /\     (* per-file checksum *)
-  fst (expand_uncached idf idf None ex_h None) = XErr EFetch.
+  fst (expand_uncached idf idf wit_b64 None ex_h (Some (ex_apk 2 ["09"] (SumSome [7]%N)))) = XErr EVerify /\   (* other control *)
+  fst (expand_uncached idf idf wit_b64 None ex_h (Some (ex_apk 1 ["0a"] (SumSome [7]%N)))) = XErr EVerify /\   (* data hash disagrees *)
+  fst (expand_uncached idf idf wit_b64 None ex_h (Some (ex_apk 1 ["09"] (SumSome [8]%N)))) = XErr ESums /\     (* per-file checksum *)
+  fst (expand_uncached idf idf wit_b64 None ex_h None) = XErr EFetch.
 Proof. repeat split; vm_compute; reflexivity. Qed.
+
+(* the hypotheses of c05_chain are satisfiable *)
+Example c05_chain_hypotheses : b64_alphabet wit_b64 /\ no_at (h_chk ex_h) = true.
+Proof.
+  split; [|reflexivity]. intros s H. unfold wit_b64 in H. destruct (String.eqb s "1") eqn:E; [|congruence].
+  apply String.eqb_eq in E; subst; reflexivity.
+Qed.
 
 (* a cache that something else wrote into is believed by name: the hit below
    returns control bytes [5] under the name of checksum [1] *)
 Example c05_cache_believes_names :
-  exists x, cached_package {| k_ctl := [([1]%N, {| c_raw := [5]%N; c_desc := "evil"; c_datahash := ["09"] |})];
+  exists x, cached_package wit_b64 {| k_ctl := [([1]%N, {| c_raw := [5]%N; c_desc := "evil"; c_datahash := ["09"] |})];
                               k_dat := [("09", {| d_raw := [9]%N; d_files := [] |})] |} ex_h = Some x /\
-            ~ Chain idf idf ex_h x.
+            ~ Chain idf idf wit_b64 ex_h x.
 Proof. eexists. split; [vm_compute; reflexivity|]. vm_compute. intros (A & _). discriminate A. Qed.
